@@ -882,7 +882,7 @@ class RZILTransformer(Transformer):
             # Cast the data type to the mem store type
             data = self.init_a_cast(operation_value_type, data)
         return self.chk_hybrid_dep(
-            self.add_op(MemStore(f"ms_{data.get_name()}", va, data))
+            self.add_op(MemStore(f"ms_{data.pure_var()}", va, data))
         )
 
     # SPECIFIC FOR: Hexagon
@@ -896,7 +896,7 @@ class RZILTransformer(Transformer):
         if not isinstance(va, Pure):
             va = self.il_ops_holder.get_op_by_name(va.value)
 
-        return self.add_op(MemLoad(f"ml_{va.get_name()}", va, mem_acc_type))
+        return self.add_op(MemLoad(f"ml_{va.pure_var()}", va, mem_acc_type))
 
     def macro_expr(self, items):
         self.ext.set_token_meta_data("macro_expr")
